@@ -89,8 +89,29 @@ def data(case):
     return Xtr, y, Xap
 
 
-def wrap(X3, container):
-    return panelpool.to_nested(X3) if container == "nested" else X3.copy()
+UNEQUAL_OK = ("pad", "trunc", "interp")
+
+
+def cut(X3, lens):
+    """Nested frame whose instance i keeps only its first lens[i] time points."""
+    n, c, _ = X3.shape
+    return pd.DataFrame({"dim_%d" % j: [pd.Series(X3[i, j, : lens[i]].copy()) for i in range(n)] for j in range(c)})
+
+
+def wrap(X3, container, labels=None, lens=None):
+    if lens is not None:
+        return cut(X3, lens)
+    if container != "nested":
+        return X3.copy()
+    X = panelpool.to_nested(X3)
+    if labels is not None:
+        # row labels are not data: a shuffled / filtered training frame that was not re-indexed
+        n = len(X)
+        lab = {"shifted": list(range(5, 5 + n)), "reversed": list(range(n - 1, -1, -1)),
+               "shuffled": [(3 * i + 1) % n if n % 3 else (i + 1) % n for i in range(n)],
+               "strings": ["r%02d" % ((7 * i) % 100) for i in range(n)]}[labels]
+        X.index = pd.Index(lab)
+    return X
 
 
 def oracle(case, ctx):
@@ -102,7 +123,19 @@ def oracle(case, ctx):
     ctx.label(spec["kind"])
     ctx.mark_nontrivial(n >= 3 and perm != list(range(n)))
     est, methods = build_est(case)
-    r = sut(est.fit, wrap(Xtr, case["fit_container"]), y)
+    lens_tr = lens_ap = None
+    if case["family"] == "transformer" and spec["kind"] in UNEQUAL_OK and case.get("unequal"):
+        # panels of unequal-length series (nested frames only): every instance is still
+        # mapped on its own, whichever other instances are in the batch
+        T = Xtr.shape[2]
+        floor = max(4, spec.get("upper") or 0)  # a requested truncation range must exist in every series
+        lens_tr = [max(floor, T - (u % (T - 3))) for u in (case["unequal"] * len(Xtr))[: len(Xtr)]]
+        lo = min(lens_tr)
+        lens_ap = [min(T, lo + (u % (T - lo + 1))) for u in (case["unequal"][::-1] * n)[:n]]
+        ctx.label("unequal_length_panel")
+    r = sut(est.fit, wrap(Xtr, case["fit_container"], case.get("fit_labels"), lens_tr), y)
+    if case.get("fit_labels") and case["fit_container"] == "nested":
+        ctx.label("fit_row_labels_%s" % case["fit_labels"])
     if isinstance(r, Raised):
         # data-dependent refusal to fit (e.g. no discriminative feature left): nothing is "fitted"
         ctx.mark_rejected()
@@ -115,13 +148,15 @@ def oracle(case, ctx):
 
     def sel_wrap(rows):
         # a user's X.iloc[rows]: the nested frame keeps the row labels of the selection
+        if lens_ap is not None:
+            return cut(Xap[rows], [lens_ap[q] for q in rows])
         if keep:
             return panelpool.to_nested(Xap).iloc[rows]
         return wrap(Xap[rows], case["apply_container"])
 
     for m in methods:
         fn = getattr(est, m)
-        base = sut(fn, wrap(Xap, case["apply_container"]))
+        base = sut(fn, wrap(Xap, case["apply_container"], None, lens_ap))
         if isinstance(base, Raised):
             discs.append(D("apply_raised:%s.%s:%s@%s" % (spec["kind"], m, base.type, base.where), base.msg))
             continue
@@ -157,6 +192,8 @@ def oracle(case, ctx):
                 discs.append(D("subset_differs_from_batch_rows:%s.%s" % (spec["kind"], m), "subset %s: %s" % (sel, d)))
         # other container at apply time
         other = "numpy3d" if case["apply_container"] == "nested" else "nested"
+        if lens_ap is not None:
+            continue
         o = sut(fn, wrap(Xap, other))
         if isinstance(o, Raised):
             discs.append(D("apply_raised:%s.%s:%s" % (spec["kind"], m, o.type), "%s input: %s" % (other, o.msg)))
@@ -165,9 +202,11 @@ def oracle(case, ctx):
             if d:
                 discs.append(D("container_changes_output:%s.%s" % (spec["kind"], m), "apply-time %s vs %s: %s" % (other, case["apply_container"], d)))
     # other container at fit time
+    if lens_tr is not None:
+        return discs
     est2, _ = build_est(case)
     other = "numpy3d" if case["fit_container"] == "nested" else "nested"
-    r2 = sut(est2.fit, wrap(Xtr, other), y)
+    r2 = sut(est2.fit, wrap(Xtr, other, case.get("fit_labels")), y)
     if isinstance(r2, Raised):
         discs.append(D("fit_raised:%s:%s" % (spec["kind"], r2.type), "%s input at fit: %s" % (other, r2.msg)))
     else:
@@ -195,7 +234,7 @@ def cases(draw, family):
         spec["num_kernels"] = draw(st.integers(2, 12))
         if kind == "pad":
             spec["pad_length"] = 40
-        if kind == "trunc":
+        if kind == "trunc" and draw(st.booleans()):
             spec.update({"lower": 2, "upper": 9})
     else:
         kind = draw(st.sampled_from(panelpool.CLASSIFIERS + ("tsfr", "iboss", "cboss", "boss")))
@@ -211,11 +250,67 @@ def cases(draw, family):
         "fit_container": draw(st.sampled_from(["nested", "numpy3d"])),
         "apply_container": draw(st.sampled_from(["nested", "numpy3d"])),
         "keep_labels": draw(st.booleans()),
+        "unequal": draw(st.one_of(st.none(), st.lists(st.integers(0, 30), min_size=2, max_size=6))),
+        "fit_labels": draw(st.sampled_from([None, None, "shifted", "reversed", "shuffled", "strings"])),
     }
+
+
+GRID_KINDS = {"paa": "num_intervals", "slope": "num_intervals", "iseg": "intervals", "swseg": "window_length", "interp": "length"}
+
+
+def enum_length_parameter_grid(tier):
+    """Every (series length, length-related parameter) pair for the transformers whose output
+    per instance is assembled in a loop over the batch: state carried from one instance to the
+    next shows for particular length / parameter relations only."""
+    tmax = 24 if tier == "quick" else 40
+    for kind, pname in GRID_KINDS.items():
+        for t in range(6, tmax + 1):
+            for v in range(1, (t if kind != "interp" else t + 6) + 1):
+                if kind == "slope" and v > t // 2:
+                    continue
+                yield {"kind": kind, "param": pname, "t": t, "value": v}
+
+
+def oracle_grid(case, ctx):
+    kind = case["kind"]
+    spec = {"kind": kind, case["param"]: case["value"], "random_state": 0}
+    X3 = panelpool.panel_values(case["t"] * 131 + case["value"], 4, 1, case["t"])
+    ctx.label(kind)
+    ctx.mark_nontrivial(case["t"] % case["value"] != 0)
+    est = panelpool.build_panel_transformer(spec)
+    r = sut(est.fit, X3.copy())
+    if isinstance(r, Raised):
+        if r.is_a(ValueError):  # documented refusal of a parameter that does not fit the length
+            ctx.mark_rejected()
+            return []
+        return [D("fit_raised:%s:%s@%s" % (kind, r.type, r.where), "t=%d %s=%d: %s" % (case["t"], case["param"], case["value"], r.msg))]
+    base = sut(est.transform, X3.copy())
+    if isinstance(base, Raised):
+        return [D("apply_raised:%s.transform:%s@%s" % (kind, base.type, base.where), "t=%d %s=%d: %s" % (case["t"], case["param"], case["value"], base.msg))]
+    b = norm_out(base)
+    discs = []
+    if len(b) != 4:
+        return [D("row_count:%s.transform" % kind, "%d rows for 4 instances (t=%d %s=%d)" % (len(b), case["t"], case["param"], case["value"]))]
+    for i in range(4):
+        s1 = sut(est.transform, X3[[i]].copy())
+        if isinstance(s1, Raised):
+            discs.append(D("apply_raised:%s.transform:%s" % (kind, s1.type), "single instance t=%d %s=%d: %s" % (case["t"], case["param"], case["value"], s1.msg)))
+            break
+        d = rows_equal(norm_out(s1), [b[i]])
+        if d:
+            discs.append(D("single_instance_differs_from_batch_row:%s.transform" % kind, "t=%d %s=%d instance %d: %s" % (case["t"], case["param"], case["value"], i, d)))
+            break
+    rev = sut(est.transform, X3[::-1].copy())
+    if not isinstance(rev, Raised):
+        d = rows_equal(norm_out(rev), b[::-1])
+        if d:
+            discs.append(D("permutation_changes_rows:%s.transform" % kind, "t=%d %s=%d reversed batch: %s" % (case["t"], case["param"], case["value"], d)))
+    return discs
 
 
 def subchecks():
     return [
+        SubCheck("length_parameter_grid", oracle_grid, enumerate_cases=enum_length_parameter_grid, shards_quick=8, shards_thorough=16, exhaustive=True),
         SubCheck("transformers", oracle, cases("transformer"), quick=600, thorough=5000, shards_quick=6, shards_thorough=16),
         SubCheck("classifiers_regressor", oracle, cases("estimator"), quick=240, thorough=4000, shards_quick=10, shards_thorough=16),
     ]
